@@ -1,9 +1,216 @@
-/- Driver.OpsV1 — placeholder (replaced by the real op table) -/
+/-
+  Driver.OpsV1 — driver operations for the model of the v1 library (JdModel/V1), the v1 wire
+  encodings, and the C17 oracle.
+
+    meta    m=<item>,<item>…   item: S (SET)  B (MULTISET)  M (MERGE)  P<16hex> (SetPrecision)
+                               K<hexkey>/<hexkey>… (Setkeys; K alone: no keys)
+    v1hunk  ( node* | node* | node* )        path elements | old values | new values
+    v1diff  < v1hunk* >
+  Path elements are nodes. Inside a metadata array of a path the token NIL (a nil interface value
+  left behind by prependMetadataMerge) is read as `.void`, and `.void` is written as NIL.
+
+    v1hash <meta> <node>            -> h<16hex>
+    v1ident <meta> <node>           -> h<16hex>
+    v1equals <meta> <a> <b>         -> T | F
+    v1diff <meta> <a> <b>           -> <v1diff>
+    v1patch <node> <v1diff>         -> ok <node> | err | panic
+    v1diffpatch <meta> <a> <b>      -> <v1diff> <outcome>
+    c17 <meta> <a> <b> <implEquals(r,b)> <impl patch outcome> <diffEmpty> <implEquals(a,b)>
+-/
 import Driver.Wire
+import Driver.Oracles
 
 namespace Jd.Driver
-open Jd Jd.Wire
+open Jd Jd.Wire Jd.Spec
 
-def runV1 (_op : String) : Option (P String) := none
+def v1EncBool (b : Bool) : String := if b then "T" else "F"
+
+/-! ### wire -/
+
+def pV1Metas : P V1.Metas := do
+  let t ← next
+  if !t.startsWith "m=" then failure
+  let body := sdrop t 2
+  if body == "" then pure []
+  else
+    (body.splitOn ",").mapM (fun it =>
+      if it == "S" then pure V1.Meta.set
+      else if it == "B" then pure V1.Meta.mset
+      else if it == "M" then pure V1.Meta.merge
+      else if it.startsWith "P" then
+        match parseHex64 (sdrop it 1) with
+        | some b => pure (V1.Meta.prec b)
+        | none => failure
+      else if it.startsWith "K" then
+        let ks := sdrop it 1
+        if ks == "" then pure (V1.Meta.setkeys [])
+        else do
+          let l ← (ks.splitOn "/").mapM (fun h => (stringOfHex h : Option String))
+          pure (V1.Meta.setkeys l)
+      else failure)
+
+/-- a path element; `.void` inside a metadata array stands for a nil interface value -/
+def v1EncPathElem : Json → String
+  | .arr .raw items =>
+    "[r" ++ String.join (items.map (fun x => " " ++ (if x.isVoid then "NIL" else encNode x))) ++ " ]"
+  | n => encNode n
+
+def v1EncHunk (h : V1.Hunk) : String :=
+  "(" ++ String.join (h.path.map (fun e => " " ++ v1EncPathElem e)) ++
+  " |" ++ encNodes h.old ++ " |" ++ encNodes h.new ++ " )"
+
+def v1EncDiff (d : V1.VDiff) : String :=
+  "<" ++ String.join (d.map (fun h => " " ++ v1EncHunk h)) ++ " >"
+
+partial def pV1MetaItemsUntil (stop : String) : P (List Json) := do
+  let t ← peek
+  if t == stop then
+    let _ ← next
+    pure []
+  else if t == "NIL" then
+    let _ ← next
+    let r ← pV1MetaItemsUntil stop
+    pure (.void :: r)
+  else
+    let x ← pNode
+    let r ← pV1MetaItemsUntil stop
+    pure (x :: r)
+
+partial def pV1PathUntil (stop : String) : P (List Json) := do
+  let t ← peek
+  if t == stop then
+    let _ ← next
+    pure []
+  else if t == "[r" then
+    let _ ← next
+    let items ← pV1MetaItemsUntil "]"
+    let r ← pV1PathUntil stop
+    pure (.arr .raw items :: r)
+  else
+    let x ← pNode
+    let r ← pV1PathUntil stop
+    pure (x :: r)
+
+def pV1Hunk : P V1.Hunk := do
+  expect "("
+  let path ← pV1PathUntil "|"
+  let old ← pNodesUntil "|"
+  let new ← pNodesUntil ")"
+  pure { path, old, new }
+
+partial def pV1HunksUntilGt : P V1.VDiff := do
+  if (← peek) == ">" then
+    let _ ← next
+    pure []
+  else
+    let h ← pV1Hunk
+    let r ← pV1HunksUntilGt
+    pure (h :: r)
+
+def pV1Diff : P V1.VDiff := do
+  expect "<"
+  pV1HunksUntilGt
+
+/-! ### C17 oracle -/
+
+/-- the v2-style options naming the equivalence that v1 metadata advertise: SET before MULTISET,
+    Setkeys alone does not change the equivalence, the first precision -/
+def v1ToOpts (m : V1.Metas) : Opts :=
+  (if V1.hasSet m then [Opt.set] else if V1.hasMset m then [Opt.mset] else []) ++ [Opt.prec (V1.precOf m)]
+
+def v1SetMode (m : V1.Metas) : Bool := V1.dispatchTag m != .list
+
+/-- `AliasFree` for v1 hash codes: among the given nodes, equal hash codes (and, for non-objects, equal
+    identities) imply equivalence. Lists and objects carry no prefix bytes in v1, so e.g. `[]`, `{}`,
+    `""` all collide. Only meaningful in set / multiset mode: list mode never hashes for equality. -/
+def v1AliasFree (m : V1.Metas) (nodes : List Json) : Bool :=
+  let o := v1ToOpts m
+  let hs := nodes.map (fun n => (V1.hashCode m n, V1.identOf m n, n))
+  hs.all (fun x => hs.all (fun y =>
+    (x.1 != y.1 || equivB o x.2.2 y.2.2) &&
+    (x.2.1 != y.2.1 || !(x.2.2.isObj == y.2.2.isObj) || x.2.2.isObj || equivB o x.2.2 y.2.2) &&
+    -- keyed objects: equal identities imply equal key tuples (the identity combines the SORTED value
+    -- hashes, so it forgets which key carries which value: {id:3,k:4} and {id:4,k:3} collide)
+    (x.2.1 != y.2.1 || !(x.2.2.isObj && y.2.2.isObj) ||
+      (match V1.keysOf m, x.2.2, y.2.2 with
+       | some ks, .obj kx, .obj ky =>
+         ks.all (fun k => match alookup k kx, alookup k ky with
+           | some u, some v => equivB o u v
+           | none, none => true
+           | _, _ => false)
+       | _, _, _ => true))))
+
+def v1HasPrecisionPair (m : V1.Metas) (a b : Json) : Bool :=
+  V1.precOf m != 0 &&
+    (subterms a).any (fun x => (subterms b).any (fun y =>
+      match x, y with
+      | .num p, .num q => p != q && numWithin (V1.precOf m) p q
+      | _, _ => false))
+
+/-- Setkeys precondition: within every array of the inputs the object members have pairwise distinct
+    identities (two members with the same identity are one entity listed twice) -/
+def v1KeyedDistinct (m : V1.Metas) (nodes : List Json) : Bool :=
+  nodes.all (fun n => match n with
+    | .arr _ xs =>
+      let ids := (xs.filter Json.isObj).map (V1.identOf m)
+      ids.length == (hdedup ids).length
+    | _ => true)
+
+/-- C17 (in-memory half) on the implementation's outputs: `a.Patch(a.Diff(b, meta))` succeeded, its
+    result Equals b (implementation's verdict, model `equals`, hash-free spec `equivB`), and the diff
+    is empty exactly when the implementation says `a.Equals(b, meta)`. -/
+def oracleC17 (m : V1.Metas) (a b : Json) (implEq : Bool) (out : Outcome Json)
+    (diffEmpty implEqAB : Bool) : String :=
+  let bad (why : String) : String :=
+    if v1SetMode m && !(v1AliasFree m (subterms a ++ subterms b)) then "kf KF-C04-alias " ++ why
+    else if V1.hasSet m && (V1.keysOf m).isSome && !(v1KeyedDistinct m (subterms a ++ subterms b)) then
+      "ok skipped-setkeys-precondition (two members of one array share an identity): " ++ why
+    else if (hasNegZero a || hasNegZero b) then "kf KF-C05-negzero " ++ why
+    else if v1HasPrecisionPair m a b then "kf KF-C05-precision " ++ why
+    else "fail " ++ why
+  match out with
+  | .ok r =>
+    if !implEq then bad "implementation: patched document does not Equal b"
+    else if !(V1.equals m r b) then bad "model equals: patched document differs from b"
+    else if !(equivB (v1ToOpts m) r b) then bad "spec Equiv: patched document is not equivalent to b"
+    else if diffEmpty != implEqAB then bad s!"diff empty={diffEmpty} but Equals(a,b)={implEqAB}"
+    else "ok"
+  | .err => bad "Patch returned an error on the library's own diff"
+  | .panic => "fail Patch panicked"
+
+/-! ### op table -/
+
+def runV1 (op : String) : Option (P String) :=
+  match op with
+  | "v1hash" => some do
+    let m ← pV1Metas; let n ← pNode
+    pure ("h" ++ hex64 (V1.hashCode m n))
+  | "v1ident" => some do
+    let m ← pV1Metas; let n ← pNode
+    pure ("h" ++ hex64 (V1.identOf m n))
+  | "v1equals" => some do
+    let m ← pV1Metas; let a ← pNode; let b ← pNode
+    pure (v1EncBool (V1.equals m a b))
+  | "v1diff" => some do
+    let m ← pV1Metas; let a ← pNode; let b ← pNode
+    pure (v1EncDiff (V1.diffM m a b))
+  | "v1patch" => some do
+    let n ← pNode; let d ← pV1Diff
+    pure (encOutcome encNode (V1.patchM n d))
+  | "v1diffpatch" => some do
+    let m ← pV1Metas; let a ← pNode; let b ← pNode
+    -- Diff then Patch on the same in-memory values (path objects alias members of a)
+    let r := V1.diffPatchShared m a b
+    pure (v1EncDiff r.1 ++ " " ++ encOutcome encNode r.2)
+  | "v1echodiff" => some do
+    let d ← pV1Diff
+    pure (v1EncDiff d)
+  | "c17" => some do
+    let m ← pV1Metas; let a ← pNode; let b ← pNode
+    let eq ← next
+    let out ← pOutcomeNode
+    let de ← next; let eqab ← next
+    pure (oracleC17 m a b (eq == "T") out (de == "T") (eqab == "T"))
+  | _ => none
 
 end Jd.Driver
